@@ -129,14 +129,20 @@ def check(pid, tier):
                 v["event"] = ev
                 v["context"] = ctx
                 v["seed"] = seed() + rep * 7919
+                # the enumerated case this run executed (runs are numbered in case order, per repetition)
+                try:
+                    v["case"] = cases[(v["run"] - 1) % len(cases)] if cases and v["run"] >= 1 else None
+                except Exception:
+                    v["case"] = None
                 viols.append(v)
             os.remove(trace)
         mine = [v for v in viols if pid in v["props"]]
 
         def mk(v):
             return write_replay(pid, v["kind"], {"property": pid, "pure": S["sub"], "signature": v["kind"],
-                                                 "event": v["event"], "context": v["context"], "seed": v["seed"],
-                                                 "how": "./check %s --replay <this file>" % pid})
+                                                 "case": v.get("case"), "event": v["event"], "context": v["context"],
+                                                 "seed": v["seed"], "tier": tier,
+                                                 "how": "./check %s --replay <this file>  (re-runs the recorded case on the current tree)" % pid})
         rc, n_new, hit = verdict(pid, mine, mk)
         kinds = sorted({v["kind"] for v in mine})
         cov = {
@@ -160,6 +166,27 @@ def check(pid, tier):
 
 
 def replay(pid, payload, path):
-    print(json.dumps(payload, indent=1))
-    print("re-run `./check %s` to reproduce (cases are deterministic for a given VERIF_SEED=%s)" % (pid, payload.get("seed")))
-    return check(pid, "quick")
+    """Re-run the recorded case (if the check could attribute one) on the current tree."""
+    S = SPECS[pid]
+    case = payload.get("case")
+    if not case:
+        print(json.dumps(payload, indent=1)[:3000])
+        print("no single case recorded; re-running the quick check (deterministic for VERIF_SEED=%s)" % payload.get("seed"))
+        return check(pid, "quick")
+    build_harness()
+    work = Work("replay-%s" % pid)
+    try:
+        T = dict(S[payload.get("tier", "quick")])
+        T["extra"] = [a for a in T["extra"] if a not in ("--large",) and not a.isdigit()] if S["sub"] == "backoff" else T["extra"]
+        trace, summ, r = run_cases(pid, S, T, work, [case], int(payload.get("seed", 1)), "replay")
+        print(open(trace).read()[:6000])
+        bad = [v for v in r.viol if pid in v["props"]]
+        for v in r.viol:
+            print("flagged:", v["kind"])
+        if bad:
+            print("VIOLATION property=%s replay=%s" % (pid, path))
+            return 1
+        print("replay: the recorded case no longer violates %s (concrete payloads are re-drawn from the seed)" % pid)
+        return 0
+    finally:
+        work.cleanup()
